@@ -981,7 +981,42 @@ func shrinkCtl(raw json.RawMessage) []json.RawMessage {
 func init() {
 	mk := func(id, rule string, probes []string, q, t int) {
 		gen := func(r *simrt.Rand, tier string) json.RawMessage { return genCtl(r, tier, id) }
-		exec := func(raw json.RawMessage, wantLog bool) Outcome { return execCtl(id, raw, wantLog) }
+		exec := func(raw json.RawMessage, wantLog bool) Outcome {
+			if id == "C18" && isConnCase(raw) {
+				return execConn(raw, wantLog)
+			}
+			return execCtl(id, raw, wantLog)
+		}
+		shrink := shrinkCtl
+		deathSig := w3DeathSig(id)
+		var legs []Leg
+		if id == "C18" {
+			// second leg: the cluster connection under the token scheduler (world6_conn.go)
+			legs = []Leg{{Name: "conn", RecycleEvery: 0, Gen: genConn, Seeds: func(tier string) int {
+				if tier == "thorough" {
+					return 400000
+				}
+				return 20000
+			}}}
+			shrink = func(raw json.RawMessage) []json.RawMessage {
+				if isConnCase(raw) {
+					return shrinkConn(raw)
+				}
+				return shrinkCtl(raw)
+			}
+			inner := deathSig
+			deathSig = func(stderr string, cs json.RawMessage) (string, string) {
+				if isConnCase(cs) {
+					if k := strings.Index(stderr, "fatal error: "); k >= 0 {
+						line := strings.SplitN(stderr[k:], "\n", 2)[0]
+						return "conn/" + firstWords(line, 6), "the process died while several goroutines used the cluster connection: " + tail(stderr[k:], 1500)
+					}
+					return "", ""
+				}
+				return inner(stderr, cs)
+			}
+			probes = append(append([]string(nil), probes...), "conn_leg_conn_runs", "conn_leg_conn_lock_waits", "conn_leg_conn_notifications_checked")
+		}
 		Register(&Check{
 			ID: id, Level: "exploration", Rule: rule,
 			Assumptions: []string{"Badger's transactional durability is trusted", "a removed node is taken out of service by the operator and never restarted; node 1 (the join target of every other node) is never removed",
@@ -994,7 +1029,7 @@ func init() {
 				}
 				return q, 5 * time.Minute
 			},
-			Gen: withSchedKnobs(gen), Exec: withSample(gen, exec), Shrink: shrinkCtl, DeathSig: w3DeathSig(id),
+			Gen: withSchedKnobs(gen), Exec: withSample(gen, exec), Shrink: shrink, DeathSig: deathSig, Legs: legs,
 		})
 	}
 	common := "case = cluster starting with 1..3 servers and 3..12 control-plane steps: create / delete dataset through any node, join of a new node (up to 5), removal of a node, crash / restart of one or all nodes, waits that let the 10 s snapshot ticker compact the zero group (threshold knob 2, 3 or 5000), isolation / heal, optional message faults; then faults stop, everything restarts and settles, the oracle runs, ALL nodes are restarted once more and the oracle runs again, then a canary create through every node; "
